@@ -206,10 +206,26 @@ def main(argv=None):
     from cnfgen.graphs import writeGraph, dag_pyramid, dag_path, dag_complete_binary_tree
     import cnfgen
     k2p = cliargs.tool("kthlist2pebbling")
-    for j, D in enumerate([dag_pyramid(2), dag_path(4), dag_complete_binary_tree(2), dag_pyramid(3)]):
+    # files written by cnfgen, and legal kthlist files laid out differently (vertices without a line of their
+    # own, several sinks, isolated vertices, comments and blank lines, lines in another order of appearance)
+    hand = ["3\n3 : 1 2 0\n", "2\n", "3\n1 : 0\n2 : 1 0\n3 : 1 0\n", "4\n2 : 1 0\n4 : 3 0\n",
+            "c a dag\n5\n\n3 : 1 2 0\n5 : 3 4 0\n", "1\n", "0\n", "4\n4 : 1 2 3 0\n", "5\n2 : 1 0\n3 : 1 0\n4 : 2 3 0\n"]
+    for t in range(4 if ck.quick else 40):
+        n = rng.randint(2, 6)
+        lines = []
+        for v in range(1, n + 1):
+            preds = sorted(rng.sample(range(1, v), rng.randint(0, min(2, v - 1)))) if v > 1 else []
+            if preds or rng.random() < .4:
+                lines.append("%d : %s0\n" % (v, "".join("%d " % u for u in preds)))
+        hand.append("%d\n%s" % (n, "".join(lines)))
+    dags = [dag_pyramid(2), dag_path(4), dag_complete_binary_tree(2), dag_pyramid(3)] + hand
+    for j, D in enumerate(dags):
         path = os.path.join(wd, "dag%d.kthlist" % j)
         with open(path, "w") as f:
-            writeGraph(D, f, "dag", "kthlist")
+            if isinstance(D, str):
+                f.write(D)
+            else:
+                writeGraph(D, f, "dag", "kthlist")
         a = side(lambda: cliargs.call_cli(k2p, ["kthlist2pebbling", "-i", path]))
         b = side(lambda: cliargs.call_cli("cnfgen", ["cnfgen", "-q", "peb", path]))
         c = side(lambda: cnfgen.PebblingFormula(R.load("dag", path)))
